@@ -56,15 +56,28 @@ def _on_line(code, line):
     return None
 
 
-def enable(codes):
+def _on_instruction(code, offset):
+    vt = current()
+    if vt is None or vt.nopreempt or not vt.sched.linepoints or vt.killed:
+        return None
+    vt.sched.point('line', (code.co_name, 'i%d' % offset))
+    return None
+
+
+def enable(codes, instructions=False):
+    """LINE events of ``codes`` become scheduling points; with
+    ``instructions=True`` every bytecode instruction does (needed to split a
+    one-line read-modify-write such as ``d[k] -= 1``)."""
     global _registered
     if not _registered:
         mon.use_tool_id(TOOL, 'vmc')
         mon.register_callback(TOOL, mon.events.LINE, _on_line)
+        mon.register_callback(TOOL, mon.events.INSTRUCTION, _on_instruction)
         _registered = True
+    ev = mon.events.INSTRUCTION if instructions else mon.events.LINE
     for c in codes:
         if c not in _active:
-            mon.set_local_events(TOOL, c, mon.events.LINE)
+            mon.set_local_events(TOOL, c, ev)
             _active.add(c)
 
 
